@@ -490,36 +490,7 @@ func (c *V2) Do(op Op) (out Outcome) {
 		}
 		return o
 	case OpUpdateTable:
-		in := &v2ddb.UpdateTableInput{TableName: aws.String(op.Table)}
-		ad := &attrDefs{}
-		for _, ch := range op.Chg {
-			u := v2types.GlobalSecondaryIndexUpdate{}
-			if ch.Create != nil {
-				if !op.NoDefs {
-					ad.add(ch.Create.Hash, ch.Create.HashT)
-					ad.add(ch.Create.Range, ch.Create.RangeT)
-				}
-				u.Create = &v2types.CreateGlobalSecondaryIndexAction{IndexName: strp(ch.Create.Name),
-					KeySchema:  v2KeySchema(ch.Create.Hash, ch.Create.Range),
-					Projection: v2Projection(*ch.Create), ProvisionedThroughput: v2Throughput()}
-			}
-			if ch.DeleteUnnamed {
-				u.Delete = &v2types.DeleteGlobalSecondaryIndexAction{}
-			}
-			if ch.Delete != "" {
-				u.Delete = &v2types.DeleteGlobalSecondaryIndexAction{IndexName: aws.String(ch.Delete)}
-			}
-			if ch.Update != "" {
-				u.Update = &v2types.UpdateGlobalSecondaryIndexAction{IndexName: aws.String(ch.Update), ProvisionedThroughput: v2Throughput()}
-			}
-			in.GlobalSecondaryIndexUpdates = append(in.GlobalSecondaryIndexUpdates, u)
-		}
-		for _, d := range op.Defs {
-			ad.add(d[0], d[1])
-		}
-		for _, n := range ad.order {
-			in.AttributeDefinitions = append(in.AttributeDefinitions, v2types.AttributeDefinition{AttributeName: aws.String(n), AttributeType: v2types.ScalarAttributeType(ad.typ[n])})
-		}
+		in := v2UpdateInput(op)
 		res, err := c.C.UpdateTable(ctx, in)
 		o := fin(err)
 		if err == nil && res != nil {
@@ -562,3 +533,46 @@ func New(name string) Client {
 
 // Adapters lists both adapter names.
 var Adapters = []string{"v1", "v2"}
+
+// V2UpdateInput builds the UpdateTableInput of an OpUpdateTable.
+func V2UpdateInput(op Op) *v2ddb.UpdateTableInput { return v2UpdateInput(op) }
+
+func v2UpdateInput(op Op) *v2ddb.UpdateTableInput {
+	in := &v2ddb.UpdateTableInput{TableName: aws.String(op.Table)}
+	ad := &attrDefs{}
+	for _, ch := range op.Chg {
+		u := v2types.GlobalSecondaryIndexUpdate{}
+		if ch.Create != nil {
+			if !op.NoDefs {
+				ad.add(ch.Create.Hash, ch.Create.HashT)
+				ad.add(ch.Create.Range, ch.Create.RangeT)
+			}
+			u.Create = &v2types.CreateGlobalSecondaryIndexAction{IndexName: strp(ch.Create.Name),
+				KeySchema:  v2KeySchema(ch.Create.Hash, ch.Create.Range),
+				Projection: v2Projection(*ch.Create), ProvisionedThroughput: v2Throughput()}
+			if op.NoThroughput {
+				u.Create.ProvisionedThroughput = nil
+			}
+		}
+		if ch.DeleteUnnamed {
+			u.Delete = &v2types.DeleteGlobalSecondaryIndexAction{}
+		}
+		if ch.Delete != "" {
+			u.Delete = &v2types.DeleteGlobalSecondaryIndexAction{IndexName: aws.String(ch.Delete)}
+		}
+		if ch.Update != "" {
+			u.Update = &v2types.UpdateGlobalSecondaryIndexAction{IndexName: aws.String(ch.Update), ProvisionedThroughput: v2Throughput()}
+		}
+		in.GlobalSecondaryIndexUpdates = append(in.GlobalSecondaryIndexUpdates, u)
+	}
+	for _, d := range op.Defs {
+		ad.add(d[0], d[1])
+	}
+	for _, n := range ad.order {
+		in.AttributeDefinitions = append(in.AttributeDefinitions, v2types.AttributeDefinition{AttributeName: aws.String(n), AttributeType: v2types.ScalarAttributeType(ad.typ[n])})
+	}
+	if op.Billing != "" {
+		in.BillingMode = v2types.BillingMode(op.Billing)
+	}
+	return in
+}
